@@ -135,11 +135,12 @@ PROPS = {
     "C04": {
         "quick_runs": 80000, "thorough_runs": 2000000, "seed": 4000001, "chunk": 4096,
         "rule": "C04 programs: 2-12 read/readwrite requests taken in order from async_rw_mutex<Val> / async_rw_mutex<void>; each "
-                "sender is started, dropped unstarted or (reads) copied and started twice on one of 1-4 threads after a drawn delay; "
+                "sender is started, dropped unstarted or (reads) copied and started twice on one of 1-4 threads after a drawn delay; some "
+                "continuations release their wrapper at once and wait (blocking, inside the continuation) for the next access when it depends on nothing else; "
                 "read wrappers are copied 0-2 times; every copy is released by a drawn thread after a drawn delay; the program is cut "
                 "into 1-4 waves: a wave's senders are requested only after all accesses of the earlier waves were released; the mutex "
                 "object is destroyed first (after the last request) in half of the runs.",
-        "required_probes": ["dropped_unstarted", "sender_copied", "mutex_destroyed_first", "void_mutex", "value_mutex", "waves"],
+        "required_probes": ["dropped_unstarted", "sender_copied", "mutex_destroyed_first", "void_mutex", "value_mutex", "waves", "released_inside_continuation", "waited_inside_continuation_for_next_access"],
         "stubbed": ["no pika runtime is started for this property: the header-only mutex is driven by simulated plain threads"],
     },
     "C05": {
